@@ -1862,6 +1862,12 @@ func (g Gateway) Uint32SlicePush(ctx context.Context, in *hydrapb.AddToUint32Sli
 			guardID := treasureObj.StartTreasureGuard(true)
 			defer treasureObj.ReleaseTreasureGuard(guardID)
 
+			// only a new/void treasure or an existing uint32 slice can take the values
+			if ct := treasureObj.GetContentType(); ct != treasure.ContentTypeVoid && ct != treasure.ContentTypeUint32Slice {
+				errorsWhilePush = append(errorsWhilePush, fmt.Sprintf("the treasure %s is not a uint32 slice", pair.GetKey()))
+				return
+			}
+
 			if err := treasureObj.Uint32SlicePush(pair.GetValues()); err != nil {
 				errorsWhilePush = append(errorsWhilePush, err.Error())
 			}
@@ -2041,6 +2047,9 @@ func (g Gateway) Uint32SliceIsValueExist(ctx context.Context, in *hydrapb.Uint32
 	}
 
 	sl, err := treasureObj.Uint32SliceGetAll()
+	if err != nil {
+		return nil, status.Error(codes.FailedPrecondition, fmt.Sprintf("the treasure type is not slice. err: %s", err.Error()))
+	}
 	for _, value := range sl {
 		if value == in.GetValue() {
 			return &hydrapb.Uint32SliceIsValueExistResponse{IsExist: true}, nil
@@ -2768,6 +2777,11 @@ func keyValuesToTreasure(keyValuePair *hydrapb.KeyValuePair, treasureInterface t
 		treasureInterface.SetContentByteArray(guardID, keyValuePair.BytesVal)
 	case keyValuePair.Uint32Slice != nil:
 
+		// overwriting a value of another type: drop the old content first, otherwise the
+		// slice is attached next to it and the treasure keeps its old type and value
+		if ct := treasureInterface.GetContentType(); ct != treasure.ContentTypeVoid && ct != treasure.ContentTypeUint32Slice {
+			treasureInterface.SetContentVoid(guardID)
+		}
 		if err := treasureInterface.Uint32SlicePush(keyValuePair.Uint32Slice); err != nil {
 			slog.Error("failed to push the uint32 slice to the treasure", "error", err.Error())
 		}
@@ -2775,7 +2789,10 @@ func keyValuesToTreasure(keyValuePair *hydrapb.KeyValuePair, treasureInterface t
 		// set the content to void
 		treasureInterface.SetContentVoid(guardID)
 	default:
-		treasureInterface.SetContentVoid(guardID)
+		// no value field at all: keep an existing value, a new treasure becomes void
+		if treasureInterface.GetContentType() == treasure.ContentTypeVoid {
+			treasureInterface.SetContentVoid(guardID)
+		}
 	}
 
 	// set other values if they are not empty
